@@ -3,12 +3,15 @@ pub mod c01;
 pub mod c02;
 pub mod c07;
 pub mod c08;
+pub mod c11;
 pub mod c18;
+pub mod sm2util;
 
 pub const ALL: &[(&str, fn(&Ctx))] = &[
     ("C01", c01::run),
     ("C02", c02::run),
     ("C07", c07::run),
     ("C08", c08::run),
+    ("C11", c11::run),
     ("C18", c18::run),
 ];
